@@ -9,7 +9,8 @@ package openapiv3
 //@   ensures verb: r.httpMethod == spec.lowerVerb(spec.verbOf(method))
 //@   ensures path.annotated: spec.basePath(service) != "" || spec.hasConfig(method) ==> r.path == spec.JoinPath(spec.basePath(service), ite(spec.hasConfig(method), spec.cfgPath(method), ""))
 //@   ensures path.default: spec.basePath(service) == "" && !spec.hasConfig(method) ==> r.path == "/" + string(service.Desc.Name()) + "/" + string(method.Desc.Name())
-//@   ensures vars: r.pathParams == spec.pathVars(method)
+//@   ensures vars.annotated: spec.basePath(service) != "" || spec.hasConfig(method) ==> r.pathParams == annotations.ExtractPathParams(r.path)
+//@   ensures vars.default: spec.basePath(service) == "" && !spec.hasConfig(method) ==> r.pathParams == spec.noPathVars()
 
 // ---- buf.validate rules -> JSON-Schema keywords (C19) ----
 
@@ -146,3 +147,53 @@ package openapiv3
 //@   loop 3 invariant spec.remainingB(processed) < spec.remainingB(old(processed))
 //@   loop 3 invariant forall k int :: 0 <= k && k < len(message.Fields) && message.Fields[k].Message != nil ==> inDom(processed, string(message.Fields[k].Message.Desc.FullName())) && processed[string(message.Fields[k].Message.Desc.FullName())]
 //@   loop 3 invariant forall k int :: 0 <= k && k < _i3 ==> inDom(processed, string(message.Messages[k].Desc.FullName())) && processed[string(message.Messages[k].Desc.FullName())]
+
+// ---- document well-formedness (C18) ----
+
+// one required path parameter per template variable, in template order
+//@ func (g *Generator) buildPathParameters(method *protogen.Method, pathParams []string) (r []*v3.Parameter)
+//@   modifies *
+//@   ensures count: len(r) == len(pathParams)
+//@   ensures each: forall k int :: 0 <= k && k < len(pathParams) ==> r[k] != nil && r[k].Name == pathParams[k] && r[k].In == "path" && r[k].Required != nil && deref(r[k].Required)
+//@   loop 1 invariant len(parameters) == _i
+//@   loop 1 invariant forall k int :: 0 <= k && k < _i ==> parameters[k] != nil && parameters[k].Name == pathParams[k] && parameters[k].In == "path"
+//@   loop 1 invariant forall k int :: 0 <= k && k < _i ==> parameters[k].Required != nil && deref(parameters[k].Required)
+
+// one query parameter per query-annotated field of the request, under its published name
+//@ func (g *Generator) buildQueryParameters(method *protogen.Method) (r []*v3.Parameter)
+//@   modifies *
+//@   let qs = annotations.GetQueryParams(method.Input)
+//@   ensures count: len(r) == len(qs)
+//@   ensures each: forall k int :: 0 <= k && k < len(qs) ==> r[k] != nil && r[k].Name == qs[k].ParamName && r[k].In == "query"
+//@   loop 1 invariant len(parameters) == _i
+//@   loop 1 invariant forall k int :: 0 <= k && k < _i ==> parameters[k] != nil && parameters[k].Name == queryParams[k].ParamName && parameters[k].In == "query"
+
+// one operation per RPC: its id is the RPC name, it is filed under the verb and the path template decided by
+// extractMethodHTTPInfo, and its path parameters are built from exactly the variables of that template
+//@ func (g *Generator) processMethod(service *protogen.Service, method *protogen.Method)
+//@   requires method != nil && service != nil && g != nil
+//@   modifies *
+//@   let info = extractMethodHTTPInfo(service, method)
+//@   at-call buildPathParameters requires template_vars: arg1 == info.pathParams
+//@   at-call assignOperationToPathItem requires opid: arg2 != nil && arg2.OperationId == string(method.Desc.Name())
+//@   at-call assignOperationToPathItem requires verb: arg1 == info.httpMethod
+//@   at-call Set requires key: arg0 == "application/json" || arg0 == info.path
+//@   ensures registered: count("assignOperationToPathItem") == old(count("assignOperationToPathItem")) + 1 && count("buildPathParameters") == old(count("buildPathParameters")) + 1
+
+// the operation lands in the slot of its verb (unknown verbs fall back to POST)
+//@ func assignOperationToPathItem(pathItem *v3.PathItem, httpMethod string, operation *v3.Operation)
+//@   modifies pathItem
+//@   ensures get: httpMethod == "get" ==> pathItem.Get == operation && pathItem.Post == old(pathItem.Post) && pathItem.Put == old(pathItem.Put) && pathItem.Delete == old(pathItem.Delete) && pathItem.Patch == old(pathItem.Patch)
+//@   ensures post: httpMethod == "post" ==> pathItem.Post == operation && pathItem.Get == old(pathItem.Get) && pathItem.Put == old(pathItem.Put) && pathItem.Delete == old(pathItem.Delete) && pathItem.Patch == old(pathItem.Patch)
+//@   ensures put: httpMethod == "put" ==> pathItem.Put == operation && pathItem.Get == old(pathItem.Get) && pathItem.Post == old(pathItem.Post) && pathItem.Delete == old(pathItem.Delete) && pathItem.Patch == old(pathItem.Patch)
+//@   ensures delete: httpMethod == "delete" ==> pathItem.Delete == operation && pathItem.Get == old(pathItem.Get) && pathItem.Post == old(pathItem.Post) && pathItem.Put == old(pathItem.Put) && pathItem.Patch == old(pathItem.Patch)
+//@   ensures patch: httpMethod == "patch" ==> pathItem.Patch == operation && pathItem.Get == old(pathItem.Get) && pathItem.Post == old(pathItem.Post) && pathItem.Put == old(pathItem.Put) && pathItem.Delete == old(pathItem.Delete)
+
+// both renderings are made from the same document: JSON is the YAML rendering converted
+//@ func (g *Generator) Render() (r []byte, err error)
+//@   requires g != nil
+//@   let y = result0(yaml.Marshal(g.doc))
+//@   let yerr = result1(yaml.Marshal(g.doc))
+//@   ensures yaml: g.format != FormatJSON ==> r == y && err == yerr
+//@   ensures json: g.format == FormatJSON && yerr == nil && result1(k8syaml.YAMLToJSON(y)) == nil ==> r == result0(k8syaml.YAMLToJSON(y)) && err == nil
+//@   ensures json_error: g.format == FormatJSON && (yerr != nil || result1(k8syaml.YAMLToJSON(y)) != nil) ==> err != nil
